@@ -399,10 +399,58 @@ func generate(rng *rand.Rand, steps int, profile string) ([]string, []string, ma
 					ch := g.chain()
 					g.do("ckpt volume-snap-" + ch[rng.Intn(len(ch))].name + ".img") // as the controller records it
 				}
+				// sometimes the source deletes, after the replica has left, the snapshot directly below the
+				// checkpoint the leaver has recorded: below the checkpoint the two directories then differ in
+				// layout (not in content), and the rebuild must leave that part of the newcomer alone
+				diverge := ""
+				if rng.Intn(2) == 0 {
+					for len(g.chain()) < 3 { // the case needs a snapshot between the base and the checkpoint
+						g.write(rng)
+						g.snapN++
+						g.do(fmt.Sprintf("snap s%d %s", g.snapN, []string{"u", "a"}[rng.Intn(2)]))
+					}
+					ch := g.chain()
+					var cand []int
+					for k := 2; k <= len(ch)-1; k++ {
+						if p := ch[k-2]; !(p.uc && !p.rm) {
+							cand = append(cand, k)
+						}
+					}
+					if len(cand) > 0 {
+						k := cand[rng.Intn(len(cand))]
+						diverge = ch[k-1].name
+						g.do("ckpt volume-snap-" + ch[k].name + ".img")
+					}
+				}
 				g.do("close")
 				g.do("stash")
 				g.do("open p")
 				g.do("mode RW")
+				if diverge != "" {
+					g.do("mark " + diverge)
+					g.do("coal " + diverge)
+					g.do("rm " + diverge)
+					for rng.Intn(2) == 0 {
+						g.write(rng)
+					}
+					g.snapN++
+					g.do(fmt.Sprintf("rbbegin r%d stale real", g.snapN))
+					for rng.Intn(2) == 0 {
+						g.write(rng)
+					}
+					g.do("rbfinish")
+					g.feat["rebuild-real-agents"] = true
+					g.feat["rejoin-with-diverged-layout-below-checkpoint"] = true
+					for rng.Intn(2) == 0 {
+						g.write(rng)
+					}
+					g.do(fmt.Sprintf("r %d %d", 0, g.nb()*8))
+					g.do("rbend")
+					g.do("open p")
+					g.do("mode RW")
+					g.punchd = true
+					break
+				}
 				for k := 0; k < 1+rng.Intn(4); k++ {
 					switch rng.Intn(5) {
 					case 0:
